@@ -45,6 +45,7 @@ func (s *Stream) startSinkWorkerPool(workerCount int) {
 								s.log.Error("Sink worker %d panic recovered: %v", workerID, r)
 							}
 						}()
+						verifYieldPoint("worker.task")
 						task()
 					}()
 				case <-s.done:
@@ -116,6 +117,7 @@ func (s *Stream) logDroppedDataWithThrottling() {
 
 // callSinksAsync asynchronously calls all sink functions
 func (s *Stream) callSinksAsync(results []map[string]any) {
+	verifYieldPoint("sinks.call")
 	// Safely access sinks slice using read lock
 	s.sinksMux.RLock()
 	defer s.sinksMux.RUnlock()
@@ -162,6 +164,7 @@ func (s *Stream) submitSinkTask(sink func([]map[string]any), results []map[strin
 
 	// Non-blocking task submission
 	// Note: Since we use a worker pool, tasks may be executed out of order
+	verifYieldPoint("sinks.submit")
 	select {
 	case s.sinkWorkerPool <- task:
 		// Successfully submitted task
